@@ -215,7 +215,7 @@ prop(
 prop(
     id="C20", module="Properties.C20", vfile="Properties/C20.v", level="proof", subcmd="c20",
     theorems=["C20_content_preserved", "C20_key_recovered", "C20_whole_call_without_overwrite", "C20_whole_call_with_overwrite",
-              "C20_every_column_holds_the_source", "C20_result_column_by_column", "C20_batch_boundaries_are_invisible", "C20_refused_iff"],
+              "C20_every_column_holds_the_source", "C20_every_column_holds_the_source_in_place", "C20_result_column_by_column", "C20_batch_boundaries_are_invisible", "C20_refused_iff"],
     counts={"quick": 480, "thorough": 20000, "search": 3200},
     rule="(a third of the sources use the all-zero salt with clustered uniform keys - two index pages per column; three keys in ten are inserted and removed "
          "again before the migration, with or without a drain in between, so that index pages have holes) "
